@@ -243,30 +243,18 @@ func coldStartBurst() {
 			os.WriteFile(fmt.Sprintf("d%d/f%d", d, f), nil, 0o644)
 		}
 	}
-	wordSrc := []string{"${V%%X*}", "${V#a?}", "${W##*/}", "${V%b*}", "${V%%Y*}", "${W#/?}", "~root/x", "~nobody", "~daemon/y", "*/*", "d?/f1*", "$((n+1))", "d[0-4]/f2?"}
-	var words []ast.Word
-	for _, w := range wordSrc {
-		cmd, _, err := parser.ParseCommand("w", ": "+w)
-		if err != nil {
-			continue
-		}
-		words = append(words, cmd.(*ast.Cmd).Expr.(*ast.SimpleCmd).Args[1])
-	}
-	// a history before the burst: prints to writers that fail (whatever the printer keeps between calls)
-	if cmds, _, err := parser.ParseCommands(nil, "w", "if a; then\n b <<E\nx\nE\nfi\n"); err == nil && len(cmds) == 1 {
-		for _, k := range []int{0, 3, 9} {
-			printer.Fprint(&gosim.SimWriter{Plan: gosim.WriterPlan{Kind: "fail", After: k}}, cmds[0])
-		}
-	}
-	for _, w := range []string{"${@#p}", "${@%x}", "\"${@##p?}\"", "${*%%?x}", "$-", "\"$-\" $#"} {
-		wordSrc = append(wordSrc, w)
-		if cmd, _, err := parser.ParseCommand("w", ": "+w); err == nil {
-			words = append(words, cmd.(*ast.Cmd).Expr.(*ast.SimpleCmd).Args[1])
-		}
-	}
+	// (nothing of the library is called before the first concurrent phase: the callers meet every first-use path together)
+	wordSrc := []string{"${V%%X*}", "${V#a?}", "${W##*/}", "${V%b*}", "${V%%Y*}", "${W#/?}", "~root/x", "~nobody", "~daemon/y", "*/*", "d?/f1*", "$((n+1))", "d[0-4]/f2?",
+		"${@#p}", "${@%x}", "\"${@##p?}\"", "${*%%?x}", "$-", "\"$-\" $#"}
 	const G = 8
 	one := func(g int) []string {
 		var out []string
+		var words []ast.Word
+		for _, w := range wordSrc {
+			if cmd, _, err := parser.ParseCommand("w", ": "+w); err == nil {
+				words = append(words, cmd.(*ast.Cmd).Expr.(*ast.SimpleCmd).Args[1])
+			}
+		}
 		for i := range progs {
 			out = append(out, props.SoloDump(progs[(i+g)%len(progs)]))
 			// the same from a plain io.Reader
@@ -303,36 +291,46 @@ func coldStartBurst() {
 		}
 		return out
 	}
-	res := make([][]string, G)
-	var wg sync.WaitGroup
-	start := make(chan struct{})
-	for g := 0; g < G; g++ {
-		wg.Add(1)
-		go func(g int) {
-			defer wg.Done()
-			defer func() {
-				if e := recover(); e != nil {
-					res[g] = []string{fmt.Sprint("panic: ", e)}
-				}
-			}()
-			<-start
-			res[g] = one(g)
-		}(g)
-	}
-	close(start)
-	wg.Wait()
 	var all []string
-	for g := 0; g < G; g++ {
-		solo := one(g)
-		all = append(all, solo...)
-		if len(solo) != len(res[g]) {
-			fmt.Fprintf(os.Stderr, "DIFF -2 caller %d of the concurrent burst: %d results, alone %d (%q)\n", g, len(res[g]), len(solo), clip(fmt.Sprint(res[g])))
-			continue
+	for phase := 0; phase < 2; phase++ {
+		if phase == 1 {
+			// a history between the two concurrent phases: prints to writers that fail (whatever the printer keeps between calls)
+			if cmds, _, err := parser.ParseCommands(nil, "w", "if a; then\n b <<E\nx\nE\nfi\n"); err == nil && len(cmds) == 1 {
+				for _, k := range []int{0, 3, 9} {
+					printer.Fprint(&gosim.SimWriter{Plan: gosim.WriterPlan{Kind: "fail", After: k}}, cmds[0])
+				}
+			}
 		}
-		for i := range solo {
-			if solo[i] != res[g][i] {
-				fmt.Fprintf(os.Stderr, "DIFF -2 caller %d of the concurrent burst, result %d: %q, alone: %q\n", g, i, clip(res[g][i]), clip(solo[i]))
-				break
+		res := make([][]string, G)
+		var wg sync.WaitGroup
+		start := make(chan struct{})
+		for g := 0; g < G; g++ {
+			wg.Add(1)
+			go func(g int) {
+				defer wg.Done()
+				defer func() {
+					if e := recover(); e != nil {
+						res[g] = []string{fmt.Sprint("panic: ", e)}
+					}
+				}()
+				<-start
+				res[g] = one(g)
+			}(g)
+		}
+		close(start)
+		wg.Wait()
+		for g := 0; g < G; g++ {
+			solo := one(g)
+			all = append(all, solo...)
+			if len(solo) != len(res[g]) {
+				fmt.Fprintf(os.Stderr, "DIFF -2 caller %d of the concurrent burst (phase %d): %d results, alone %d (%q)\n", g, phase, len(res[g]), len(solo), clip(fmt.Sprint(res[g])))
+				continue
+			}
+			for i := range solo {
+				if solo[i] != res[g][i] {
+					fmt.Fprintf(os.Stderr, "DIFF -2 caller %d of the concurrent burst (phase %d), result %d: %q, alone: %q\n", g, phase, i, clip(res[g][i]), clip(solo[i]))
+					break
+				}
 			}
 		}
 	}
